@@ -4,6 +4,7 @@ import (
 	"bytes"
 	"encoding/hex"
 	"fmt"
+	"net"
 	"net/http"
 	"os"
 	"path/filepath"
@@ -164,10 +165,19 @@ func newFixture(users []User) (*Fixture, error) {
 		um[u.Name] = u.Password
 	}
 	ts.Profile = tsx.BasicProfile(um, &profile.ServiceConfig{Endpoint: SvcEndpoint, Password: "initial-service-password"})
-	// the TLS listener Start() wants gets the harness listener's (occupied) port: the
-	// bind fails, the goroutine logs it and parks forever; nothing else listens.
+	// Start() also serves the engine over TLS on Profile host:port from a goroutine of its
+	// own (after generating an RSA key).  It gets a free loopback port: nobody connects to
+	// it, it cannot be shut down, and it lives as long as the process (one listening socket
+	// per teamserver; teamservers are reused, so there are few).  Letting its bind fail
+	// instead would make that goroutine write Start()'s shared `err` variable while
+	// connection handlers write it too - a race report that says nothing about this property.
+	tlsPort := 0
+	if pl, err := net.Listen("tcp4", "127.0.0.1:0"); err == nil {
+		tlsPort = pl.Addr().(*net.TCPAddr).Port
+		pl.Close()
+	}
 	ts.Flags.Server.Host = "127.0.0.1"
-	ts.Flags.Server.Port = strconv.Itoa(l.Port())
+	ts.Flags.Server.Port = strconv.Itoa(tlsPort)
 	for len(readyCh) > 0 {
 		<-readyCh
 	}
